@@ -172,6 +172,23 @@ pub mod c09 {
     scan_refuse!(q_scan_refuse_third_short, "ABCD.EFGH.I");
     scan_refuse!(q_scan_refuse_third_long, "ABCD.EFGH.IJKLM");
     scan_refuse!(q_scan_refuse_middle_empty, "\\ABCD..IJKL");
+    // several wrong-length segments that together fill whole "XXXX." strides (total length 5n-1,
+    // a dot at every fifth byte where one is due): a stride-based scanner that only checks the
+    // total length and the separator positions accepts these (seeded change C09_r4M)
+    scan_refuse!(q_scan_refuse_stride_2_1, "AB.C");
+    scan_refuse!(q_scan_refuse_stride_1_2, "A.BC");
+    scan_refuse!(q_scan_refuse_stride_0_3, ".ABC");
+    scan_refuse!(q_scan_refuse_stride_1_0_1, "A..B");
+    scan_refuse!(q_scan_refuse_stride_dots, "....");
+    scan_refuse_prefix!(q_scan_refuse_stride_3_0, "ABC.XXXX", 4);
+    scan_refuse!(q_scan_refuse_stride_rooted_2_1, "\\AB.C");
+    scan_refuse!(q_scan_refuse_stride_first_2_1_then_4, "AB.C.DEFG");
+    scan_refuse!(q_scan_refuse_stride_4_then_1_2, "ABCD.E.FG");
+    scan_refuse!(q_scan_refuse_stride_4_then_0_3, "ABCD..EFG");
+    scan_refuse_prefix!(q_scan_refuse_stride_4_then_3_0, "ABCD.EFG.XXXX", 9);
+    scan_refuse!(q_scan_refuse_stride_rooted_4_then_2_1, "\\ABCD.EF.G");
+    scan_refuse!(q_scan_refuse_stride_3seg_mid, "_SB_.ABC..PCI0");
+    scan_refuse!(q_scan_refuse_stride_3seg_last, "ABCD.EFGH.I.JK");
     scan_refuse!(t_scan_refuse_second_len0_of3, "ABCD..IJKL");
     scan_refuse!(t_scan_refuse_second_len3_of3, "ABCD.EFG.IJKL");
     scan_refuse!(t_scan_refuse_second_len5_of3, "ABC.EFGHX.IJKL");
